@@ -55,6 +55,12 @@ pub fn run(c: &Case, rep: &mut Report) {
             line_to_in.insert(r.line, abs);
         }
     }
+    // rows of input sequences a linker tombstoned (based at or beyond 0xFFFFFFF0): code that was removed before walrus
+    // ever saw the module
+    let dead_lines: HashSet<u64> = info_in.rows.iter().filter(|r| !r.end_sequence && r.address >= 0xFFFF_FFF0).map(|r| r.line).collect();
+    if !dead_lines.is_empty() {
+        rep.count("inputs-with-a-tombstoned-line-sequence", 1);
+    }
     rep.observe("input-forms", &format!("v{} sequences={} file0={}", info_in.version, if info_in.sequences <= 1 && din.funcs.iter().filter(|f| f.body.is_some()).count() > 1 { "spanning" } else { "per-function" }, info_in.rows.iter().any(|r| r.file == 0)));
     rep.observe("function-counts", &din.funcs.iter().filter(|f| f.body.is_some()).count().to_string());
     for f in din.funcs.iter().filter_map(|f| f.body.as_ref()) {
@@ -132,7 +138,14 @@ pub fn run(c: &Case, rep: &mut Report) {
         for row in info_out.rows.iter().filter(|r| !r.end_sequence) {
             let a = match line_to_in.get(&row.line) {
                 Some(a) => *a,
-                None => continue, // not a row of an instruction start in the input
+                None => {
+                    if dead_lines.contains(&row.line) && row.address < 0xFFFF_FFF0 {
+                        if let Some(f) = in_function(row.address) {
+                            rep.violation(c, "C10/row-of-a-tombstoned-input-sequence-points-into-a-function", &format!("{}: line {} belonged to a sequence based at 0xFFFFFFFF in the input; in the output it has address {:#x} inside function {}", label, row.line, row.address, f), &blob);
+                        }
+                    }
+                    continue; // not a row of an instruction start in the input
+                }
             };
             rows_checked += 1;
             seen_lines.insert(row.line);
